@@ -51,6 +51,9 @@ CHECKS = {
  "C09": ("exploration", "three-way agreement monitor: random $verif kernel-contract programs (get/put/del/scan/event/resource use/nested calls/contract transfers/failures) over growing prior states on a gas-charging chain: pre-execution (no trace) -> signed transaction -> VerifyTx -> DoTx -> state delta == write set and declared outputs -> block replay; tamper oracle over schema-walk mutants of read set / write set / requests / fee / token outputs, re-signed",
          "Runtime oracle over ~1500 programs and ~700 tampered variants per quick run; held on what was explored; one nested-call rollback finding is recorded.",
          "Trusted: Node.PreExec mirrors Chain.PreExec call by call; kernel contracts stand in for wasm/native/EVM contracts (same sandbox, bridge, verification and commit paths).", "DESIGN.md §3 C09"),
+ "C11": ("exploration", "reference-model monitor over exhaustively enumerated small universes: the real IdentifyAccount / CheckContractMethodPerm against a decimal-exact model written from the statement (strict and liberal readings; only what both demand is enforced) for every rule assignment x signer list of the boxes (threshold weights, key sets, nested accounts to depth 2 incl. cycles, 27 confusable URI forms, every order of every subset for decimal weights, monotonicity pairs); end to end: every subset of a 13-entry signer menu x every operation touching the XCAccount / XCContract / XCContract2Account buckets (SetAccountAcl, SetMethodAcl, raw bucket writes through $verif, spending, guarded method call) through State.VerifyTx in five phases (pending / confirmed rule changes) against the rules confirmed at the tip",
+         "Exhaustive over the enumerated boxes (42M evaluations quick, 1G thorough; 72k / 1M verified transactions), nothing sampled; the boxes are small universes, not all rules.",
+         "Trusted: the ~450-line statement model (cmd/c11/model.go), weights compared as the decimals the rule's author wrote; stub AclManager in part A; signature verification itself belongs to C07. Unspecified by the statement and only counted: re-pointing an existing contract->account mapping, the initiator's own signature, malformed URIs.", "DESIGN.md §3 C11"),
  "C20": ("exploration", "codec: round trips over all message types x option subsets x payload classes (in process and after the wire), exhaustive single-bit flips and bursts <= 32 bits on payloads <= 2 kB, sampled on large ones, request->response type map; dispatcher: sequential model check + concurrent Register / UnRegister / Dispatch rounds in child processes under the race detector with an offline exactly-once / at-most-once / never checker over unique message ids",
          "Exhaustive for single-bit flips and bursts on small payloads, sampled elsewhere; concurrent interleavings are those the scheduler produced.",
          "Trusted: CRC32 / snappy libraries; the subscription-table model; race reports count only when both frames lie in dispatcher.go / subscriber.go.", "DESIGN.md §3 C20"),
